@@ -24,9 +24,10 @@ class C18(SpanProp):
     id = 'C18'
     files = ['tephra-span/src/span.rs', 'tephra-span/src/metrics.rs', 'tephra-span/src/source.rs']
     rule = ('every text up to the tier bound over {a,sp,TAB,e2,CR,LF} x {LF,CR,CRLF}; per text every canonical span through '
-            'widen_to_line, split_lines (all pieces) and len() before every next() and after exhaustion; '
+            'widen_to_line, split_lines (all pieces) and len() (with size_hint) before every next() and after exhaustion; plus seeded texts of up to 12 lines with breaks placed as units, 4-byte / wide / zero-width characters and tab widths 1..16; '
             'non-trivial = text with >= 1 line break and >= 3 positions; distinct by (text, metrics)')
     exhaustive = {'quick': True, 'thorough': True}
+    vary_order = False
     assumptions = ['span endpoints are canonical positions of the text; source without start offset (offsets are C20)']
 
     def cases(self, tier, rng):
@@ -37,13 +38,19 @@ class C18(SpanProp):
             for t in spangen.all_texts(ALPHA, maxlen):
                 n += 1
                 out.append(spangen.span_case('c%d' % n, le, 4, t, ['lines']))
-        if tier != 'quick':
-            r = rng.fork('C18')
-            for i in range(1500):
-                le = r.choice(['lf', 'cr', 'crlf'])
-                t = spangen.random_text(r, ALPHA + ['LF', 'CR', 'w3'], 14)
-                n += 1
-                out.append(spangen.span_case('c%d' % n, le, 1 + r.below(8), t, ['lines']))
+        # seeded longer texts: line breaks placed as units (so that CRLF breaks really occur under crlf), 4-byte / wide /
+        # zero-width characters next to breaks, tab widths 1..16, up to ~12 lines
+        r = rng.fork('C18')
+        lbs = {'lf': ['LF'], 'cr': ['CR'], 'crlf': ['CR', 'LF']}
+        for i in range(150 if tier == 'quick' else 1500):
+            le = r.choice(['lf', 'cr', 'crlf'])
+            t = []
+            for _ in range(1 + r.below(12)):
+                t += spangen.random_text(r, ['a', 'sp', 'TAB', 'e2', 'w3', 'w4', 'z3', 'z2'] + (['CR', 'LF'] if r.chance(1, 4) else []), 3)
+                if r.chance(4, 5): t += lbs[le]
+            t = t[:22]
+            n += 1
+            out.append(spangen.span_case('c%d' % n, le, 1 + r.below(16), t, ['lines']))
         return out
 
     def nontrivial(self, ct, it):
@@ -69,11 +76,13 @@ class C18(SpanProp):
                 if e[1] != want_w:
                     fails.append(((gi, ei), 'widen_to_line(%s) = %s, expected %s (text %s, %s)' % (e[0], e[1], want_w, ' '.join(c['text']), c['le'])))
                 got_p = e[2][1:]
-                want_p = [fmt_span(*p) for p in pieces]
+                want_p = [fmt_span(*p) for p in pieces][:64]        # the harness stops after 64 pieces (FORMAT-span.md)
                 if got_p != want_p:
                     fails.append(((gi, ei), 'split_lines(%s) = %s, expected %s (text %s, %s)' % (e[0], ' '.join(got_p), ' '.join(want_p), ' '.join(c['text']), c['le'])))
                 got_l = e[3][1:]
                 want_l = [str(len(pieces) - k) for k in range(len(pieces) + 1)] + ['0']
+                if len(pieces) >= 64:
+                    want_l = want_l[:64]                              # 64 lengths, exhaustion never observed
                 if got_l != want_l:
                     fails.append(((gi, ei), 'len() sequence of split_lines(%s) = %s, expected %s' % (e[0], ' '.join(got_l), ' '.join(want_l))))
         return fails
